@@ -283,6 +283,7 @@ func seqPrelude(x string, seq, elem string, elemRange string) string {
 	w("(assert (forall ((a %S) (lo Int) (hi Int)) (! (=> (and (<= 0 lo) (<= lo hi)) (= (len_%X (slice_%X a lo hi)) (- hi lo))) :pattern ((slice_%X a lo hi)))))")
 	w("(assert (forall ((a %S) (lo Int) (hi Int) (t Int)) (! (=> (and (<= 0 t) (< t (- hi lo))) (= (at_%X (slice_%X a lo hi) t) (at_%X a (+ lo t)))) :pattern ((at_%X (slice_%X a lo hi) t)))))")
 	w("(assert (forall ((a %S)) (! (= (slice_%X a 0 (len_%X a)) a) :pattern ((slice_%X a 0 (len_%X a))))))")
+	w("(assert (forall ((a %S) (lo Int) (hi Int) (lo2 Int) (hi2 Int)) (! (=> (and (<= 0 lo) (<= lo hi) (<= 0 lo2) (<= lo2 hi2) (<= hi2 (- hi lo))) (= (slice_%X (slice_%X a lo hi) lo2 hi2) (slice_%X a (+ lo lo2) (+ lo hi2)))) :pattern ((slice_%X (slice_%X a lo hi) lo2 hi2)))))")
 	w("(assert (forall ((e %E)) (! (and (= (len_%X (single_%X e)) 1) (= (at_%X (single_%X e) 0) e)) :pattern ((single_%X e)))))")
 	w("(assert (forall ((a %S) (i Int) (e %E)) (! (= (len_%X (upd_%X a i e)) (len_%X a)) :pattern ((upd_%X a i e)))))")
 	w("(assert (forall ((a %S) (i Int) (e %E) (t Int)) (! (= (at_%X (upd_%X a i e) t) (ite (and (= t i) (<= 0 i) (< i (len_%X a))) e (at_%X a t))) :pattern ((at_%X (upd_%X a i e) t)))))")
